@@ -308,6 +308,7 @@ impl<M: RawMutex + 'static> System for Sys<M> {
                     r.push(structcheck::waker_code(n.waker, G, i));
                     r.push(snap.queues[0].iter().position(|q| q.addr == n.addr).map_or(200, |p| p as u8));
                     r.push(s.fut.get().is_terminated() as u8);
+                    r.extend(harness::norm(&s.fut.get().verif_node_debug()));
                     recs.push(r);
                 }
             }
@@ -320,6 +321,7 @@ impl<M: RawMutex + 'static> System for Sys<M> {
             v.push(253);
         }
         v.push(snap.queues[0].len() as u8);
+        v.extend(harness::norm(&self.mutex.verif_debug()));
         v
     }
 
